@@ -27,6 +27,7 @@ import RosuModel.Model.ConvCatchWire
 import RosuModel.Model.PipelineCatchWire
 import RosuModel.Model.SkillWire
 import RosuModel.Model.TaikoPreWire
+import RosuModel.Model.PipelineWire
 
 open Rosu
 
@@ -84,6 +85,7 @@ def handle (line : String) : String :=
   | ["CRB", x] => ClockRate.handleCRB x
   | "PP" :: args => PerfCalc.handlePP args
   | ["MSKILL", rate, cols, take, objs] => SkillWire.handleMSKILL rate cols take objs
+  | ["PIPE", mode, bytes, mods, rate, take] => PipelineWire.handlePIPE mode bytes mods rate take
   | ["TSKILL", sum0, hw, flags, n, recs] => SkillWire.handleTSKILL sum0 hw flags n recs
   | ["CSKILL", rate, cs, take, objs] => SkillWire.handleCSKILL rate cs take objs
   | "OSK" :: args => PerfCalc.handleOSK args
